@@ -27,7 +27,7 @@ func c07Probe(tag string) gen.Node {
 	for i, n := range c07Pool {
 		args[i] = str(n)
 	}
-	return &gen.NIf{Conds: []gen.Expr{&gen.EBool{V: true}}, Bodies: [][]gen.Node{{tx("[" + tag + ":"), pr(&gen.ECall{Fn: "probe", Args: args}), tx("]")}}}
+	return &gen.NIf{Conds: []gen.Expr{&gen.EBool{V: true}}, Bodies: [][]gen.Node{{tx("[" + tag + ":"), pr(&gen.ECall{Fn: "probe", Args: args}), tx("|"), pr(&gen.ECall{Fn: "names"}), tx("]")}}}
 }
 
 type c07gen struct {
@@ -89,14 +89,19 @@ func (g *c07gen) stmts(depth, n int, inLoop map[string]bool) []gen.Node {
 
 func (g *c07gen) stmt(depth int, inLoop map[string]bool) []gen.Node {
 	r := g.r
-	k := r.Intn(7)
+	k := r.Intn(8)
 	if depth <= 0 && k >= 2 {
 		k = r.Intn(2)
 	}
-	if g.inMacro && (k == 5) {
+	if g.inMacro && (k == 5 || k == 7) {
 		k = 0
 	}
 	switch k {
+	case 7:
+		// a filter section is no scope of its own: what is set inside stays set afterwards
+		body := g.stmts(depth-1, 1+r.Intn(2), inLoop)
+		g.sig = append(g.sig, "filter")
+		return []gen.Node{tx("S("), &gen.NFilter{Filters: []string{[]string{"ident", "b1", "up"}[r.Intn(3)]}, Body: body}, tx(")")}
 	case 0, 1:
 		if g.inMacro {
 			name := "m" + strconv.Itoa(1+r.Intn(2))
@@ -328,7 +333,7 @@ func (p *c07) Run(i int) (res fw.Result) {
 }
 
 func (p *c07) Rule() string {
-	return "cases: seeded nestings (depth<=4) of set, set-capture, for (with and without key), if and macro calls over a 4-name pool (a,b,c,d; some also given by the context, some holding null, false, 0 or the empty string) so that collisions between loop variables, macro parameters and outer variables are the norm. After every statement, at the start of every loop body and macro body, a probe prints which pool names are visible and their values (a registered function reading Context.Scope(), mirrored by the model), and the template ends with a direct read of one pool name (undefined reads as null). Oracle: reference model with the scoping rules of the statement. Excluded, as behaviour the statement leaves open: assigning to a name currently bound by an enclosing loop or macro parameter; a name first set inside a loop body is set at the very start of the body (so it is never read in iteration n+1 before being set); macro bodies only look at their parameters and their own names (m1, m2), which are never used outside macros. Non-trivial = at least one collision between a local and an outer name; distinct = statement sequence with names."
+	return "cases: seeded nestings (depth<=4) of set, set-capture, for (with and without key), if, filter sections and macro calls over a 4-name pool (a,b,c,d; some also given by the context, some holding null, false, 0 or the empty string) so that collisions between loop variables, macro parameters and outer variables are the norm. After every statement, at the start of every loop body and macro body, a probe prints which pool names are visible and their values, and (outside macro bodies) the complete sorted list of names the scope holds, so that nothing can be defined on the side (a registered function reading Context.Scope(), mirrored by the model), and the template ends with a direct read of one pool name (undefined reads as null). Oracle: reference model with the scoping rules of the statement. Excluded, as behaviour the statement leaves open: assigning to a name currently bound by an enclosing loop or macro parameter; a name first set inside a loop body is set at the very start of the body (so it is never read in iteration n+1 before being set); macro bodies only look at their parameters and their own names (m1, m2), which are never used outside macros. Non-trivial = at least one collision between a local and an outer name; distinct = statement sequence with names."
 }
 
 func (p *c07) Assumptions() []string {
